@@ -93,3 +93,6 @@ def run(chk):
             chk.floor("C01.F forms %s %s" % (kind, op), per_op.get((kind, op), 0), fl)
     chk.notes["forms"] = {"%s %s" % k: v for k, v in per_op.items()}
     chk.notes["n_range"] = [0, nmax]
+    if chk.tier == "thorough":
+        from .. import witnesses
+        witnesses.run(chk, "C01", ['W4'])
